@@ -6,12 +6,19 @@ Exit codes used by checks: 0 = property held on everything explored, 1 = violati
 import json, os, re, shutil, subprocess, sys, time, hashlib, tempfile, random
 
 VERIF = os.path.dirname(os.path.dirname(os.path.abspath(__file__)))
-REPO = '/repo'
+# The registered checks always verify /repo. For the validation of the machinery itself (seeded defects living in
+# scratch worktrees) KZ_REPO points the harness at another tree; all outputs then go to a private directory.
+REPO = os.environ.get('KZ_REPO', '/repo').rstrip('/')
 BUILD = os.path.join(VERIF, '.build')
 SPECS = os.path.join(VERIF, 'specs')
 EVID = os.path.join(VERIF, 'evidence')
 REPLAYS = os.path.join(VERIF, 'replays')
 HARNESS = os.path.join(VERIF, 'harness')
+ALT = REPO != '/repo'
+if ALT:
+    BUILD = os.path.join(VERIF, '.build', 'alt-' + hashlib.sha1(REPO.encode()).hexdigest()[:10])
+    EVID = os.path.join(BUILD, 'evidence')
+    REPLAYS = os.path.join(BUILD, 'replays')
 NCPU = os.cpu_count() or 4
 
 
@@ -40,7 +47,7 @@ def goenv():
     e['GOPROXY'] = 'off'
     e.pop('GOSUMDB', None)
     e['GOTOOLCHAIN'] = 'auto'
-    e.setdefault('GOCACHE', os.path.join(BUILD, 'gocache'))
+    e.setdefault('GOCACHE', os.path.join(VERIF, '.build', 'gocache'))
     return e
 
 
@@ -76,6 +83,12 @@ def build_harness(race=False, name='kzh', tags='verif', pkg='./cmd/kzh'):
     cmd = ['go', 'build', '-tags', tags, '-o', out]
     if race:
         cmd.append('-race')
+    if ALT:
+        mod = os.path.join(BUILD, 'go.alt.mod')
+        with open(mod, 'w') as fh:
+            fh.write(open(os.path.join(HARNESS, 'go.mod')).read().replace('/repo/v2', REPO + '/v2'))
+        open(os.path.join(BUILD, 'go.alt.sum'), 'a').close()
+        cmd.append('-modfile=' + mod)
     cmd.append(pkg)
     env = goenv()
     rc, so, se, dt = run(cmd, timeout=900, env=env, cwd=HARNESS)
